@@ -493,7 +493,7 @@ def _run(case, disk, seams):
                 # buffers of open writers are gone; their un-flushed tail is undefined
                 for q, w in list(writers.items()):
                     sm = seq_model[q]
-                    if sm['pending']:
+                    if sm['pending'] and sm['state'] == 'ok':
                         sm['state'] = 'tail-unknown'
                         probes['crash_with_unflushed_records'] = \
                             probes.get('crash_with_unflushed_records', 0) + 1
